@@ -98,6 +98,24 @@ def gatherFrom (G : Graph) (order : List Nat) : Res (List Nat) :=
 def gatherHelperCode (G : Graph) (req : List Nat) : Res (List Nat) :=
   gatherFrom G (sortNat req)
 
+/-! ## helpers shared between modules
+
+Every Fortran module (library, each non-flattened namespace, each class file of wrapc) collects its own set of C helpers
+(`fileinfo.c_helper`, `Wrapc.c_helper`); `gather_helper_code` of each module ends with
+`self.shared_helper.update(fileinfo.c_helper)` (wrapc.write_file: `self.shared_helper.update(self.c_helper)`;
+wrap_class adds the capsule helper directly).  `shared_helper` is one dict shared by Wrapc and Wrapf
+(`config.fc_shared_helpers`); at the very end `Wrapc.write_impl_utility` runs `gather_helper_code(self.shared_helper)` and
+writes the `cwrap_impl` sources into util<lib>.c/.cpp. -/
+
+/-- `for m in modules: shared_helper.update(m.c_helper)` (as a key list) -/
+def sharedHelpers : List (List Nat) → List Nat
+  | [] => []
+  | m :: rest => m ++ sharedHelpers rest
+
+/-- the helpers whose code reaches the utility file: `gather_helper_code(shared_helper)` -/
+def utilityHelpers (G : Graph) (modules : List (List Nat)) : Res (List Nat) :=
+  gatherHelperCode G (sharedHelpers modules)
+
 /-! ## graph predicates used by the table theorems (decidable, kernel-evaluated) -/
 
 /-- every dependency names an existing helper -/
